@@ -432,3 +432,37 @@ contract(
         IDS_OK, APPENDED.format(K="k"), NEW_IDS, CALLER_SAME,
     ])},
 )
+
+
+# bulk upsert: every event carries an id.  Each call of insert_one is met with its `:existing` contract (an upsert through replace):
+# the list keeps its length and its ids position by position, a position whose id none of the events carries holds the very object
+# it held, and every other position holds an object of the store's own (fresh, with a fresh data dict) - never the caller's event.
+UPS_EVENTS_OK = "all(allocated(events[i]) and allocated(events[i].data) and events[i].id is not None for i in range(len(events)))"
+UPS_CALLER_SAME = ("events is old(events) and len(events) == old(len(events))"
+                   " and all(events[i] is old(events[i]) and events[i].id == old(events[i].id) and events[i].timestamp == old(events[i].timestamp)"
+                   "         and events[i].duration == old(events[i].duration) and events[i].data is old(events[i].data)"
+                   "         and events[i].data == old(events[i].data) for i in range(len(events)))")
+UPS_IDS_KEPT = "all(self.db[bucket_id][j].id == old(self.db[bucket_id][j].id) for j in range(len(self.db[bucket_id])))"
+UPS_UNTOUCHED = ("all(self.db[bucket_id][j] is old(self.db[bucket_id][j]) or any(events[i].id == old(self.db[bucket_id][j].id) for i in range({K}))"
+                 "    for j in range(len(self.db[bucket_id])))")
+UPS_OWNED = ("all(self.db[bucket_id][j] is old(self.db[bucket_id][j]) or (fresh(self.db[bucket_id][j]) and fresh(self.db[bucket_id][j].data))"
+             "    for j in range(len(self.db[bucket_id])))")
+contract(
+    A_ + ".insert_many:memory-upsert",
+    params={"self": "MemoryStorage", "bucket_id": "str", "events": "List[Event]"},
+    requires=["bucket_id in self.db", "mem_inv(self)", "allocated(events)", UPS_EVENTS_OK, "len(self.db[bucket_id]) >= 0",
+              "all(events is not self.db[b] for b in self.db)"],
+    ghost_vars={"L0": ("List[Event]", "self.db[bucket_id]")},
+    callee_variants={M_ + ".insert_one": "existing"},
+    ensures=[
+        "self.db[bucket_id] is old(self.db[bucket_id]) and len(self.db[bucket_id]) == old(len(self.db[bucket_id]))",
+        UPS_IDS_KEPT, UPS_UNTOUCHED.format(K="len(events)"), UPS_OWNED, UPS_CALLER_SAME, "mem_inv(self)",
+    ],
+    modifies=["self.db[bucket_id][]", "alloc"], writes_fresh=["*"], raises=[],
+    loops={0: dict(index="k", invariant=[
+        "bucket_id in self.db and self.db[bucket_id] is old(self.db[bucket_id]) and L0 is self.db[bucket_id]"
+        " and len(self.db[bucket_id]) == old(len(self.db[bucket_id])) and old(len(self.db[bucket_id])) >= 0 and k >= 0",
+        "mem_inv(self)", "allocated(events)", UPS_EVENTS_OK, "all(events is not self.db[b] for b in self.db)",
+        UPS_IDS_KEPT, UPS_UNTOUCHED.format(K="k"), UPS_OWNED, UPS_CALLER_SAME,
+    ])},
+)
